@@ -14,14 +14,22 @@
 namespace TJ.MiniC
 
 /-- integer types of the subset (LP64): pointers and `size_t` are `u64`, `int` is `i32` -/
-inductive Ty | u8 | u16 | u32 | u64 | i32 | i64
+inductive Ty | u8 | u16 | u32 | u64 | i8 | i16 | i32 | i64
   deriving DecidableEq, Repr, Inhabited
 
 def Ty.bits : Ty → Nat
-  | .u8 => 8 | .u16 => 16 | .u32 => 32 | .u64 => 64 | .i32 => 32 | .i64 => 64
+  | .u8 => 8 | .u16 => 16 | .u32 => 32 | .u64 => 64 | .i8 => 8 | .i16 => 16 | .i32 => 32 | .i64 => 64
+/-- `2 ^ bits`, as literals (the interpreter evaluates this at every arithmetic node) -/
+def Ty.modulus : Ty → Nat
+  | .u8 => 256 | .u16 => 65536 | .u32 => 4294967296 | .u64 => 18446744073709551616
+  | .i8 => 256 | .i16 => 65536 | .i32 => 4294967296 | .i64 => 18446744073709551616
+/-- `2 ^ (bits-1)` -/
+def Ty.half : Ty → Nat
+  | .u8 => 128 | .u16 => 32768 | .u32 => 2147483648 | .u64 => 9223372036854775808
+  | .i8 => 128 | .i16 => 32768 | .i32 => 2147483648 | .i64 => 9223372036854775808
 def Ty.bytes (t : Ty) : Nat := t.bits / 8
 def Ty.signed : Ty → Bool
-  | .i32 => true | .i64 => true | _ => false
+  | .i8 => true | .i16 => true | .i32 => true | .i64 => true | _ => false
 
 inductive BinOp
   | add | sub | mul | div | rem | band | bor | bxor | shl | shr
